@@ -360,6 +360,8 @@ class Builder:
     def build_array_item(self, sexpression, context, gate_context):
         identifier, index = sexpression.args
         built_identifier = self.build(identifier, context, gate_context)
+        if not isinstance(built_identifier, (Register, Parameter)):
+            raise JaqalError(f"Cannot index {identifier}: it is not a register")
         built_index = as_integer(self.build(index, context, gate_context))
         # If built_identifier is the wrong type it will raise its own JaqalError, or at least it should.
         return built_identifier[built_index]
